@@ -75,6 +75,7 @@ struct Subject {
 	virtual void op(Bfs & b, int o) = 0;
 	virtual void verify(const char * when) = 0;   // observation vs model (disarmed)
 	virtual std::string key() = 0;
+	virtual void adoptAfterMultipleFaults() {}
 	int cap(int quick) const { return ctx.tier >= 1 ? quick + 1 : quick; }   // size caps are one larger in the thorough tier
 	void body(Bfs & b) {
 		ledger().reset();
@@ -86,6 +87,10 @@ struct Subject {
 			fctl().fired = 0;
 			op(b, o);
 			if(fctl().fired > 0) b.tagOutcome("+fault");
+			// The property quantifies over ONE failing point per operation (singly, and in succession across operations). The thorough
+			// tier also lets a second point fail inside the same operation; then a rollback can itself fail, and only "no leak, valid,
+			// usable" is demanded: subjects whose strong guarantee rests on a rollback adopt what the objects show.
+			if(fctl().fired >= 2) { b.tagOutcome("+2"); if(!ctx.failed) adoptAfterMultipleFaults(); }
 			if(!ctx.failed) verify("after the operation");
 			checkLedgerErrors(ctx, "quiescent");
 			b.stepEnd(key());
@@ -583,6 +588,15 @@ struct SRemovers : Subject {
 		if(seen != md) { ctx.fail("state-changed-by-failed-operation", fmt("%s: the dispatcher calls %s, the model (unchanged by failed operations) holds %s", when, vec(seen).c_str(), vec(md).c_str())); return; }
 		int have = ledger().liveTotal(TC_CALLBACK, true), want = (int)(ml.size() + md.size());
 		if(have != want) ctx.fail("leak-or-loss", fmt("%s: %d callback objects alive, the containers hold %d", when, have, want));
+	}
+	// two faults inside one add: the rollback of the remover (detach the listener again) may itself have failed; the listener
+	// may then stay attached without the remover knowing it - adopt it as a directly added one
+	void adoptAfterMultipleFaults() override {
+		std::vector<int> seen; g_seen = &seen; (*l)(1); g_seen = nullptr;
+		for(int id : seen) if(std::find(ml.begin(), ml.end(), id) == ml.end()) ctx.log(fmt("  (after two faults in one operation #%d stayed attached to the list)", id));
+		ml = seen;
+		seen.clear(); g_seen = &seen; d->dispatch(3, 1); g_seen = nullptr;
+		md = seen;
 	}
 	std::string key() override { int sl = 0, sd = 0; for(int id : ml) sl += viaScoped.count(id); for(int id : md) sd += viaScoped.count(id); return fmt("%zu.%d,%zu.%d", ml.size(), sl, md.size(), sd); }
 };
